@@ -117,12 +117,13 @@ class Flow(object):
             pscope = self.scope.parent
             if pscope:
                 snames = pscope.names
-                if isinstance(self.scope, ClassScope) or self.scope is self.scope.top:
+                is_class = isinstance(self.scope, ClassScope)
+                if (is_class and not self.scope.globals) or self.scope is self.scope.top:
                     # class and module bodies look a name up again at every read: until the body
                     # binds it, the outer (for a module: builtin) name is what a read finds
                     return MergedDict(snames)
                 else:
-                    outer_names = set(snames).difference(self.scope.locals)
+                    outer_names = set(snames).difference(() if is_class else self.scope.locals)
                     names = {n: snames[n] for n in outer_names}
                     for n in self.scope.globals if self.scope is not self.scope.top else ():
                         # declared global: bindings of enclosing functions are skipped
